@@ -352,6 +352,7 @@ func c13Directed() []Directed {
 func init() {
 	Register(&Engine{
 		ID:       "C13",
+		Anchors:  []string{"group.go:ServeHTTP", "match.go:AndMatcher", "match.go:OrMatcher", "match.go:restoreMatch", "group.go:Remove", "group.go:Add", "group.go:New"},
 		Cases:    func(t string) int { return map[string]int{"quick": 1000, "thorough": 80000}[t] },
 		Run:      runC13,
 		Directed: c13Directed,
